@@ -154,10 +154,10 @@ Definition call_errh (ev : dev) : D unit :=
 (* ------------------------------------------------------------------ *)
 (* what the handler reads from `src`                                   *)
 
-(* get_isa_id / get_gs_id / get_st_id (x12file.py:214-245): the FIRST loop of the kind in self.loops
-   (outermost first; Reader.loops is innermost first) *)
+(* get_isa_id / get_gs_id / get_st_id (x12file.py:214-245): the LAST loop of the kind in self.loops, i.e. the
+   innermost open one (Reader.loops is innermost first) *)
 Definition src_id (x : xstate) (kind : string) : option str :=
-  match List.find (fun lp => str_eqb (fst lp) (l kind)) (rev (loops x)) with
+  match List.find (fun lp => str_eqb (fst lp) (l kind)) (loops x) with
   | Some lp => snd lp
   | None => None
   end.
